@@ -4,6 +4,10 @@ From Verif Require Import Base.Word Base.Check Model.Keys Model.Indexes Model.Ke
 Import ListNotations.
 Local Open Scope N_scope.
 
+(* short constructors used by the driver-written case files (fewer tokens: Coq parses them faster) *)
+Definition Sn (f r : list (N * N)) (t : option N) : snap := {| sfwd := f; srev := r; stot := t |}.
+Definition Ob (r : ret) (l : list snap) : obs := {| o_ret := r; o_snaps := l |}.
+
 (* the acceptor with a per-case configuration C from which the abstract operation is derived *)
 Definition waccept {C O} (ab : C -> O -> aop) (ss : C * sstate) (o : O) (r : obs) : (C * sstate) + N :=
   match accept (snd ss) (ab (fst ss) o) r with
@@ -80,6 +84,33 @@ Definition run_idx (cs : list icase) : list (list N) :=
   check_all i_step (waccept i_absop) obs_eqb 1 (map mki cs).
 
 (* ---- circuit-id keys ---- *)
+(* byte strings are written by the driver as (B length words): big-endian 6-byte words, zero padded
+   (one numeral per byte is slow to parse, one huge numeral is slower still) *)
+Definition B (len : N) (ws : list N) : bytes := firstn (N.to_nat len) (flat_map (be_bytes 6) ws).
 Definition ccase := list (cop * cout).
 Definition run_ckey (cs : list ccase) : list (list N) :=
   check_all c_step c_accept cout_eqb 1 (map (fun tr => (tt, cinit, tr)) cs).
+
+(* ---- one case type for all components, so that a stream (corpus, guarded, defect) can mix them ---- *)
+Inductive ucase :=
+| UV (c : vcase) | UQ (c : qcase) | US (c : scase) | UI (c : icase) | UC (c : ccase).
+
+Definition run1 (u : ucase) : list N :=
+  match u with
+  | UV c => let '(s0, ss0, tr) := mkv c in check_case v_step (waccept v_absop) obs_eqb s0 ss0 tr
+  | UQ c => let '(s0, ss0, tr) := mkq c in check_case q_step (waccept q_absop) obs_eqb s0 ss0 tr
+  | US c => let '(s0, ss0, tr) := mks c in check_case s_step (waccept s_absop) obs_eqb s0 ss0 tr
+  | UI c => let '(s0, ss0, tr) := mki c in check_case i_step (waccept i_absop) obs_eqb s0 ss0 tr
+  | UC tr => check_case c_step c_accept cout_eqb tt cinit tr
+  end.
+
+Fixpoint run_from (i : N) (cs : list ucase) : list (list N) :=
+  match cs with
+  | [] => []
+  | c :: tl =>
+      match run1 c with
+      | 0 :: 0 :: 0 :: 0 :: 0 :: [] => run_from (i + 1) tl
+      | v => (i :: v) :: run_from (i + 1) tl
+      end
+  end.
+Definition run_cases (cs : list ucase) : list (list N) := run_from 1 cs.
